@@ -117,6 +117,29 @@ func StatePredicates(prefix string) {
 	// C09 / C07: used together with the fixed-point probe: nothing can move, every target is connected, yet
 	// some accepted transaction is not final
 	verifrt.Region(prefix+"bad:stranded", !allTerminal && connected)
+	// C07 (with the fixed-point probe): at quiescence, with every target connected and at most Budget process stops /
+	// faults in the history, each change transaction has the outcome it would have had without them:
+	// APPLIED if every named target's model accepts it, FAILED otherwise
+	wrong := false
+	for i := 0; i < NX; i++ {
+		tx := &S.Txs[i]
+		if !tx.Exists || tx.IsRollback {
+			continue
+		}
+		accepted := true
+		for t := 0; t < NT; t++ {
+			if tx.Targets[t] && !S.Verdict[t][i] {
+				accepted = false
+			}
+		}
+		if accepted && tx.State != txAPPLIED {
+			wrong = true
+		}
+		if !accepted && !(tx.State == txFAILED && txTerminal(i)) {
+			wrong = true
+		}
+	}
+	verifrt.Region(prefix+"bad:c07-wrong-outcome-at-quiescence", wrong && connected && S.Crashes <= Budget && S.Faults == 0)
 
 	// ---- C01: all-or-nothing per change transaction
 	partial := false // committed/applied but some named target not altered
